@@ -189,7 +189,21 @@ class G:
         return st
 
     def wf(self, kinds):
-        steps = [self.step(kinds) for _ in range(self.r.randint(2, 4))]
+        steps = []
+        marks = []      # (step id, root values when it starts, root values when it ends, does it run)
+        for _ in range(self.r.randint(2, 4)):
+            before = dict(self.env['root'])
+            st = self.step(kinds)
+            steps.append(st)
+            marks.append((st['id'], before, dict(self.env['root']), self.expect_steps.get(st['id'], True)))
+        # a step that hands a workflow variable on as a declared output: its successor's messages carry the variable's
+        # CURRENT value in their inputs (the outputs of the predecessor are evaluated when the message is made)
+        self.handed = []
+        for i in range(len(steps) - 1):
+            if self.r.random() < 0.35 and marks[i][3] and marks[i + 1][3] and 'if' not in steps[i + 1]:
+                g = self.r.choice(['g0', 'g1'])
+                steps[i]['outputs'] = {g: None}
+                self.handed.append((steps[i + 1]['id'], g, marks[i + 1][1][g], marks[i + 1][2][g]))
         inputs = dict(g0=1, g1=2)
         outputs = {'g0': None, 'g1': None}
         for p, _, _, _ in self.probes:
@@ -232,11 +246,31 @@ def fork_case(rng):
     return wf, rules, ops, {'T': T, 'reader': reader, 'step_out': step_out}
 
 
+def handover_case(rng):
+    """step1 hands a workflow variable on as a declared output without holding a copy of its own; step3 writes the
+    variable; the client sends the flow back to step2: its second run starts after the write and receives it"""
+    T = rng.randint(100, 999)
+    via = rng.choice(['act-template', '$get'])      # (what the step's own message shows as inputs is not judged: value at hand-over or current value, the statement does not decide)
+    a2 = {'id': 'a2', 'uses': IRQ, 'key': 'a2'}
+    if via == 'act-template':
+        a2['inputs'] = {'seen': '{{ x }}'}
+    elif via == '$get':
+        a2['inputs'] = {'seen': "{{ $get('x') }}"}
+    wf = {'id': 'm1', 'inputs': {'x': 0}, 'outputs': {'x': None}, 'steps': [
+        {'id': 'step1', 'outputs': {'x': None}, 'acts': [{'id': 'a1', 'uses': IRQ, 'key': 'a1'}]},
+        {'id': 'step2', 'acts': [a2]},
+        {'id': 'step3', 'acts': [{'id': 'a3', 'uses': IRQ, 'key': 'a3', 'outputs': {'x': None}}, {'id': 'a4', 'uses': IRQ, 'key': 'a4'}]}]}
+    rules = [{'match': {'key': 'a3'}, 'action': 'next', 'options': {'x': T}, 'times': 5}, {'match': {'key': 'a4'}, 'action': 'back', 'options': {'to': 'step2'}, 'times': 1},
+             {'match': {'uses': IRQ}, 'action': 'next', 'times': 20}]
+    ops = [{'op': 'start', 'mid': 'm1', 'vars': {'pid': 'p1'}}, {'op': 'run'}, {'op': 'snapshot', 'level': 'live'}]
+    return wf, rules, ops, {'T': T, 'reader': via, 'step_out': True, 'handover': True}
+
+
 class DataFamily:
     name = 'data'
 
     def gen_fork(self, rng, idx, opts):
-        wf, rules, ops, m = fork_case(rng)
+        wf, rules, ops, m = fork_case(rng) if rng.random() < 0.7 else handover_case(rng)
         rt = rng.choice([{'flavor': 'current'}, {'flavor': 'current', 'chaos': {'max_yields': 3, 'seed': rng.randrange(1, 1 << 40)}}, {'flavor': 'multi', 'workers': 2, 'chaos': {'max_yields': 2, 'seed': rng.randrange(1, 1 << 40)}}])
         sc = {'id': '', 'family': 'data', 'sched': rt['flavor'] + '-fork', 'runtime': rt, 'engine': {'store': opts.get('store', 'mem'), 'keep_processes': True}, 'models': [json.dumps(wf)],
               'responder': {'mode': 'quiescent', 'rules': rules}, 'ops': ops}
@@ -246,6 +280,16 @@ class DataFamily:
         out = []
         h, sc, m = c['hist'][0], c['scenarios'][0], c['meta']
         sid = sc['id']
+        if m.get('handover'):
+            obs[f"c07.handover-reads:{m['reader']}"] += 1
+            if m['reader'] == 'step-inputs':
+                ms = [(e.get('inputs') or {}).get('x') for e in h.delivers if e['type'] == 'step' and e['nid'] == 'step2' and e['state'] == 'created']
+            else:
+                ms = [(e.get('inputs') or {}).get('seen') for e in h.delivers if e['key'] == 'a2' and e['state'] == 'created']
+            if ms != [0, m['T']]:
+                out.append(V('C07', 'read-your-writes', f"handed-on-output:{m['reader']}:{'stale' if len(ms) == 2 and ms[1] == 0 else 'other'}",
+                             f"step2 ran twice (the client sent the flow back after x={m['T']} had been written): its two runs received x = {ms} through {m['reader']}, expected [0, {m['T']}]", scenario=sid))
+            return out
         obs[f"c07.fork-reads:{m['reader']}"] += 1
         cb = [e for e in h.cbs if e['what'] == 'complete']
         if not cb:
@@ -281,7 +325,7 @@ class DataFamily:
             # the process is dropped from the cache at quiescent points and continues from its stored rows
             sc['faults'] = {'evict_at': sorted(set(rng.randint(1, 8) for _ in range(rng.randint(1, 3))))}
             sc['sched'] += '+evict'
-        meta = {'penv': dict(g.penv), 'wf': wf, 'probes': g.probes, 'msgs': g.expect_msgs, 'steps': g.expect_steps, 'root': dict(g.env['root']), 'sub': 'single'}
+        meta = {'handed': list(getattr(g, 'handed', [])), 'penv': dict(g.penv), 'wf': wf, 'probes': g.probes, 'msgs': g.expect_msgs, 'steps': g.expect_steps, 'root': dict(g.env['root']), 'sub': 'single'}
         return {'scenarios': [sc], 'meta': meta, 'digest': digest(wf), 'nontrivial': len(g.probes) + len(g.expect_msgs) >= 1}
 
     def judge(self, c, opts, obs):
@@ -319,6 +363,18 @@ class DataFamily:
             obs['c07.reads:R3'] += 1
             if fin.get(s_) != ('completed' if ok else 'skipped'):
                 out.append(V('C07', 'read-your-writes', f'step-condition:{race}', f"step {s_} with a condition on the current value ended {fin.get(s_)}, expected {'completed' if ok else 'skipped'}", scenario=sid))
+        for sid_, g_, at_start, at_end in m.get('handed') or []:
+            # (the completed message is not judged: whether its inputs show the value at hand-over or the current one
+            # depends on whether the predecessor holds a copy of its own, and the statement does not decide it)
+            for state, want in (('created', at_start),):
+                ms = [e for e in h.delivers if e['type'] == 'step' and e['nid'] == sid_ and e['state'] == state]
+                if not ms:
+                    continue
+                obs['c07.reads:step-message-inputs'] += 1
+                gv = (ms[0].get('inputs') or {}).get(g_)
+                if gv != want:
+                    out.append(V('C07', 'read-your-writes', f"step-message-inputs:{state}:{'stale' if isinstance(gv, int) and isinstance(want, int) and gv < want else 'other'}:{race}",
+                                 f"the {state} message of step {sid_} carries {g_}={gv!r} in its inputs (the declared output of its predecessor), the variable was {want!r} at that moment", scenario=sid))
         procs = h.final_procs()
         if 'p1' in procs and m.get('penv') is not None:
             obs['c07.reads:ENV'] += 1
